@@ -141,7 +141,13 @@ def run_spec(spec, props=("C18",)):
         G = sample_graph(n, spec.get("gseed", 1))
         nodes = list(G.nodes())
         for name, mk in list(simulators(EoN, G, nodes).items()) + list(discrete_sims(EoN, G, nodes).items()):
-            a, sa = seeded(mk, s); b, sb = seeded(mk, s)
+            try:
+                a, sa = seeded(mk, s); b, sb = seeded(mk, s)
+            except RuntimeError as e:
+                if "entropy source" not in str(e):
+                    raise
+                A.add(V("C18", name, "seeded", "entropy", "%s: %s (randomness must come from random / numpy.random only)" % (name, e)))
+                continue
             A.execs += 2; A.evals += 1
             A.states.add((name, s)); A.trans.add((name, s, hsh(a))); A.outcomes.add(hsh(a)); A.nontrivial.add((name, s))
             if a != b:
@@ -151,8 +157,13 @@ def run_spec(spec, props=("C18",)):
         # return mode independence (continuous time: the flag does not influence the draws)
         for name in simulators(EoN, G, nodes):
             stats = ("S", "I") if "SIS" in name else ("S", "I", "R")
-            a, _ = seeded(lambda: arrays_sig(simulators(EoN, G, nodes, full=False)[name](), stats), s)
-            b, _ = seeded(lambda: arrays_sig(simulators(EoN, G, nodes, full=True)[name](), stats), s)
+            try:
+                a, _ = seeded(lambda: arrays_sig(simulators(EoN, G, nodes, full=False)[name](), stats), s)
+                b, _ = seeded(lambda: arrays_sig(simulators(EoN, G, nodes, full=True)[name](), stats), s)
+            except RuntimeError as e:
+                if "entropy source" not in str(e):
+                    raise
+                continue
             A.execs += 2; A.evals += 1
             if a != b:
                 A.add(V("C18", name, "seeded", "flag_dependent", "%s with the same seeds returns different arrays with and without return_full_data" % name))
